@@ -65,7 +65,9 @@ func main() {
 			fmt.Fprintf(os.Stderr, "Unexpected error: %v\n", err)
 			os.Exit(1)
 		}
-		if fi.Size() == 0 {
+		// a pipe or socket reports a size of 0 even when data is waiting; only refuse a terminal
+		// or an empty regular file
+		if fi.Mode()&os.ModeCharDevice != 0 || (fi.Mode().IsRegular() && fi.Size() == 0) {
 			fmt.Fprintln(os.Stderr, "No data provided on stdin.  Use '-file' or pass data on stdin.")
 			os.Exit(1)
 		}
